@@ -99,7 +99,9 @@ def main():
     base = list(dict.fromkeys(PY_LAYOUT + py + seeds.concat_product(True, 100 if chk.quick else 1000, chk.rng)))
     if chk.quick:
         base = PY_LAYOUT + seeds.sample(chk.rng, base, 700)
-    base = errseeds.dedent_after() + base
+    from checks.c10 import shapes as fstring_shapes
+    fs = fstring_shapes(chk.rng, chk.quick)
+    base = errseeds.dedent_after() + (fs[:500] if chk.quick else fs[:6000]) + base      # f-strings are tokens too: prefix x quote x literal x field shapes
     lay = [t for s in base for t in (s, s.replace("\n", "\r\n"), s.rstrip("\n"))]
     pycommon.k0_texts(chk, o, lay, "layout variants (LF / CRLF / no final newline) k=0", wall=150 if chk.quick else 900, tokens_only=True)
     chk.run("A-holes k=1", harness.A_harness(holes_textfn(pairs), do_tokens=True, do_parse=False, path_oracles=o),
